@@ -1069,14 +1069,8 @@ Qed.
 Definition tree_node_outcome (o : outcome (tree * titer)) : outcome (node * titer) :=
   '(t, it) <- o ;; Ok (troot t, it).
 
-Definition recognise_tree_from (l : option token) (ts : list token) : rres :=
-  pda_run pda_init (fst (skip_comments l ts)) (snd (skip_comments l ts)).
-
 Lemma recognise_tree_eq : forall ts, recognise_tree ts = recognise_tree_from None ts.
-Proof.
-  intro ts. unfold recognise_tree, recognise_tree_from.
-  destruct (skip_comments None ts); reflexivity.
-Qed.
+Proof. reflexivity. Qed.
 
 Theorem parse_tree_run : forall ts l,
   tree_node_outcome (parse_tree (mkIter ts l)) = rres_outcome (recognise_tree_from l ts).
@@ -1304,9 +1298,175 @@ Proof.
       { rewrite Hl'. destruct r as [|r0 r'].
         - rewrite app_nil_r in Hts. subst cs. rewrite Hlast.
           destruct ts; [right; auto | left; reflexivity].
-        - left. rewrite Hts at 2. symmetry. apply last_opt_app. discriminate. }
+        - left. rewrite Hts. symmetry. apply last_opt_app. discriminate. }
       destruct Hlo as [Hlo|[Hnil Hlo]].
       * rewrite <- Hlo. destruct last'; inversion E; reflexivity.
-      * destruct Hl as [Hne|Hnone]; [congruence|]. subst. simpl.
-        inversion E; reflexivity.
+      * destruct Hl as [Hne|Hnone]; [congruence|]. rewrite Hnil. simpl.
+        rewrite Hlo, Hnone in E. inversion E; reflexivity.
 Qed.
+
+(* ------------------------------------------------------------------------ *)
+(** * Statements in the form used by Properties/C07.v *)
+
+Lemma c07_parse_sound : forall ts n it',
+  parse_node (parse_fuel ts) (iter_of ts) = Ok (n, it') ->
+  exists pre, ts = pre ++ it_rest it' /\ derives_node pre n.
+Proof.
+  intros ts n it' H. apply parse_node_sound in H.
+  destruct H as (p & r & Hr & Hd & _). simpl in Hr. eauto.
+Qed.
+
+Lemma c07_parse_complete : forall pre n rest,
+  derives_node pre n ->
+  parse_node (parse_fuel (pre ++ rest)) (iter_of (pre ++ rest)) = Ok (n, mkIter rest (last_opt pre)).
+Proof.
+  intros pre n rest H. apply parse_node_complete_gen; [assumption|]. unfold parse_fuel. lia.
+Qed.
+
+Lemma c07_clean_tokens : forall ts l,
+  good (parse_node (parse_fuel ts) (mkIter ts l)) /\
+  good (parse_tree (mkIter ts l)) /\
+  (forall acc, good (snd (iterparse_toks (S (length ts)) (mkIter ts l) acc))) /\
+  (forall sc acc, good (parse_triples_loop (S (length ts)) (mkIter ts l) sc acc)).
+Proof.
+  intros ts l. repeat split.
+  - apply parse_node_good. simpl. unfold parse_fuel. lia.
+  - apply parse_tree_good.
+  - intro acc. apply iterparse_toks_good. simpl. lia.
+  - intros sc acc. apply parse_triples_loop_good. simpl. lia.
+Qed.
+
+Lemma c07_clean : forall s,
+  (exists t, parse s = Ok t) \/ (exists l o, parse s = DecodeErr l o).
+Proof.
+  intro s. pose proof (parse_good s) as H.
+  destruct (parse s); simpl in H; try contradiction; eauto.
+Qed.
+
+Lemma c07_clean_iterparse : forall s,
+  snd (iterparse_str s) = Ok tt \/ (exists l o, snd (iterparse_str s) = DecodeErr l o).
+Proof.
+  intro s. pose proof (iterparse_str_good s) as H.
+  destruct (snd (iterparse_str s)) as [[]| | | | | | | |]; simpl in H; try contradiction; eauto.
+Qed.
+
+Lemma c07_clean_iterparse_lines : forall ls,
+  snd (iterparse_lines ls) = Ok tt \/ (exists l o, snd (iterparse_lines ls) = DecodeErr l o).
+Proof.
+  intro ls. pose proof (iterparse_lines_good ls) as H.
+  destruct (snd (iterparse_lines ls)) as [[]| | | | | | | |]; simpl in H; try contradiction; eauto.
+Qed.
+
+Lemma c07_clean_triples : forall s,
+  (exists ts, parse_triples s = Ok ts) \/ (exists l o, parse_triples s = DecodeErr l o).
+Proof.
+  intro s. pose proof (parse_triples_good s) as H.
+  destruct (parse_triples s); simpl in H; try contradiction; eauto.
+Qed.
+
+Lemma c07_recognise_agrees_accept : forall ts n rest,
+  recognise ts = Some (n, rest) <->
+  exists last, parse_node (parse_fuel ts) (iter_of ts) = Ok (n, mkIter rest last).
+Proof.
+  intros ts n rest. rewrite parse_node_recognise. unfold recognise.
+  destruct (recognise_full ts) as [n' rest' last'|[|t r]|last']; simpl; split; intro H.
+  - inversion H; subst. eauto.
+  - destruct H as [last H]. inversion H; subst. reflexivity.
+  - discriminate.
+  - destruct H as [last H]. discriminate.
+  - discriminate.
+  - destruct H as [last H]. discriminate.
+  - discriminate.
+  - destruct H as [last H]. unfold err_end in H. simpl in H. destruct last'; discriminate.
+Qed.
+
+Lemma c07_recognise_tree_agrees : forall ts,
+  tree_node_outcome (parse_tree (iter_of ts)) = rres_outcome (recognise_tree ts).
+Proof. intro ts. rewrite recognise_tree_eq. apply parse_tree_run. Qed.
+
+Lemma c07_recognise_correct : forall ts n rest,
+  recognise ts = Some (n, rest) <-> exists pre, ts = pre ++ rest /\ derives_node pre n.
+Proof.
+  intros ts n rest. split.
+  - apply recognise_sound.
+  - intros (pre & E & Hd). subst ts. apply recognise_complete. exact Hd.
+Qed.
+
+(* ( a / b~1 :r ( ) :s~2 dquote x dquote :t ) : extensions 1 and 3, both kinds of alignment *)
+Definition ex_toks : list token :=
+  [mkToken LPAREN [40] 1 0; mkToken SYMBOL [97] 1 1; mkToken SLASH [47] 1 3;
+   mkToken SYMBOL [98] 1 5; mkToken ALIGNMENT [126;49] 1 6; mkToken ROLE [58;114] 1 9;
+   mkToken LPAREN [40] 1 12; mkToken RPAREN [41] 1 13; mkToken ROLE [58;115] 1 15;
+   mkToken ALIGNMENT [126;50] 1 17; mkToken STRING [34;120;34] 1 20; mkToken ROLE [58;116] 1 24;
+   mkToken RPAREN [41] 1 26]%N.
+Definition ex_node : node :=
+  Node (AStr [97%N])
+    [(SLASHS, TAtom (AStr [98;126;49]%N)); ([58;114]%N, TNode (Node ANone []));
+     ([58;115;126;50]%N, TAtom (AStr [34;120;34]%N)); ([58;116]%N, TAtom ANone)].
+Lemma c07_example_derivable : derives_node ex_toks ex_node /\
+  parse_node (parse_fuel (ex_toks ++ ex_toks)) (iter_of (ex_toks ++ ex_toks))
+    = Ok (ex_node, mkIter ex_toks (last_opt ex_toks)).
+Proof.
+  assert (Hd : derives_node ex_toks ex_node).
+  { destruct (c07_parse_sound ex_toks ex_node (mkIter [] (Some (mkToken RPAREN [41%N] 1 26))))
+      as (pre & Hpre & Hd).
+    { vm_compute. reflexivity. }
+    simpl in Hpre. rewrite app_nil_r in Hpre. subst pre. exact Hd. }
+  split; [exact Hd|]. apply c07_parse_complete. exact Hd.
+Qed.
+
+(* ------------------------------------------------------------------------ *)
+(** * iterparse = the recogniser applied repeatedly *)
+
+Definition seq_agree (o : outcome unit) (e : option (N * N)) : Prop :=
+  match o with
+  | Ok _ => e = None
+  | DecodeErr lo off => e = Some (lo, off)
+  | _ => False
+  end.
+
+Lemma rres_outcome_pos : forall r lo off,
+  rres_outcome r = DecodeErr lo off -> rres_pos r = Some (lo, off).
+Proof.
+  intros r lo off H. destruct r as [n rest last|[|t rest]|[t|]]; simpl in H; try discriminate;
+    inversion H; reflexivity.
+Qed.
+
+Theorem iterparse_recognise_seq : forall f ts l acc,
+  length ts < f ->
+  map troot (fst (iterparse_toks f (mkIter ts l) acc)) = fst (recognise_seq f l ts (map troot acc)) /\
+  seq_agree (snd (iterparse_toks f (mkIter ts l) acc)) (snd (recognise_seq f l ts (map troot acc))).
+Proof.
+  induction f as [|f IH]; intros ts l acc Hf; [lia|].
+  cbn [iterparse_toks recognise_seq it_rest].
+  destruct ts as [|t ts].
+  { simpl. rewrite map_rev. split; reflexivity. }
+  assert (Hst : ty_in (tty t) [COMMENT; LPAREN] = starts_tree t).
+  { unfold starts_tree. destruct (tty t); reflexivity. }
+  rewrite Hst. destruct (starts_tree t).
+  2:{ simpl. rewrite map_rev. split; reflexivity. }
+  pose proof (parse_tree_run (t :: ts) l) as E.
+  destruct (parse_tree (mkIter (t :: ts) l)) as [[tr it']|lo off| | | | | | |] eqn:Ep;
+    unfold tree_node_outcome in E; cbn [bind] in E.
+  - destruct (recognise_tree_from l (t :: ts)) as [n rest last|[|x r]|last]; simpl in E;
+      try discriminate.
+    + inversion E; subst. apply parse_tree_progress in Ep. simpl in Ep.
+      apply (IH rest last (tr :: acc)). simpl in Hf. lia.
+    + unfold err_end in E. simpl in E. destruct last; discriminate.
+  - symmetry in E. apply rres_outcome_pos in E.
+    destruct (recognise_tree_from l (t :: ts)) as [n rest last|r|last]; simpl in E; try discriminate;
+      simpl; rewrite map_rev; split; auto.
+  - destruct (recognise_tree_from l (t :: ts)) as [n rest last|[|x r]|[x|]]; discriminate.
+  - destruct (recognise_tree_from l (t :: ts)) as [n rest last|[|x r]|[x|]]; discriminate.
+  - destruct (recognise_tree_from l (t :: ts)) as [n rest last|[|x r]|[x|]]; discriminate.
+  - destruct (recognise_tree_from l (t :: ts)) as [n rest last|[|x r]|[x|]]; discriminate.
+  - destruct (recognise_tree_from l (t :: ts)) as [n rest last|[|x r]|[x|]]; discriminate.
+  - pose proof (good_rres_outcome pda_init (fst (skip_comments l (t :: ts))) (snd (skip_comments l (t :: ts)))) as Hg.
+    unfold recognise_tree_from in E. rewrite <- E in Hg. contradiction.
+  - destruct (recognise_tree_from l (t :: ts)) as [n rest last|[|x r]|[x|]]; discriminate.
+Qed.
+
+Lemma c07_iterparse_recognise : forall ts,
+  map troot (fst (iterparse_toks (S (length ts)) (iter_of ts) [])) = fst (recognise_all ts) /\
+  seq_agree (snd (iterparse_toks (S (length ts)) (iter_of ts) [])) (snd (recognise_all ts)).
+Proof. intro ts. apply (iterparse_recognise_seq (S (length ts)) ts None []). lia. Qed.
